@@ -410,6 +410,46 @@ static void budget_near_wrap(const args_t *a, long idx, unsigned k, unsigned nfe
     n_events += cb.nev;
 }
 
+/* The same idea anywhere in the counter's range: generate `pre` blocks through the API (counter = 1 + pre), then let
+ * the hook stand in for c - 1 - pre feed calls (counter = c), then feeds, and generation under the byte-budget monitor
+ * (which has counted the `pre` blocks) and the twin monitor.  2^27 feeds take minutes through the API, 2^31 hours. */
+static void budget_placed(const args_t *a, long idx, unsigned long c, unsigned nfeeds, size_t limit, unsigned long pre)
+{
+    tinyjambu_prng_state_t st, tw;
+    static cb_t cb;
+    budget_t b = {0, 1024, 0};
+    rng_t r = rng_for(a->seed, 0xB0D9, (uint64_t)idx);
+    uint8_t fed[8] = {9, 8, 7, 6, 5, 4, 3, 2};
+    unsigned i;
+    size_t e0, e1, oa, ob, n = bound_for(limit) + 96;
+    char ctx[128];
+    if (c < 1 + pre || c > 0xFFFFFFFFul) return;
+    snprintf(ctx, sizeof ctx, "%lu blocks generated, counter placed at %lu (= %lu feeds), then %u feeds, limit %zu", pre, c, c - 1 - pre, nfeeds, limit);
+    set_case("{\"h\":\"prng\",\"mode\":\"budget-placed-counter\",\"i\":%ld,\"pre_blocks\":%lu,\"counter\":%lu,\"feeds\":%u,\"limit\":%zu}", idx, pre, c, nfeeds, limit);
+    ++n_eval; ++n_near_wrap;
+    cls_add(mix64(0xB0D9, (uint64_t)idx));
+    if (idx % 101 == 0 || a->only >= 0) emit_sample();
+    cb_reset(&cb, a->seed, (uint64_t)idx, NULL, 0, 0);
+    tinyjambu_prng_init_user(&st, entropy_cb, &cb, NULL, 0);
+    tinyjambu_prng_set_reseed_limit(&st, limit); b.limit = limit;
+    if (pre) { e0 = cb.nev; lib_generate(&st, &cb, pre * 32, &r); budget_generate(&b, &cb, e0, pre * 32, ctx); }
+    if (tinyjambu_prng_verif_get_counter(&st) != 1 + pre) return;           /* a reseed happened inside `pre`: not the state described */
+    tinyjambu_prng_verif_set_counter(&st, c);
+    for (i = 0; i < nfeeds; ++i) { tinyjambu_prng_feed(&st, fed, i & 7); ++n_feed; }
+    memcpy(&tw, &st, sizeof st);
+    tinyjambu_prng_feed(&tw, fed, 3);
+    e0 = cb.nev;
+    lib_generate(&st, &cb, n, &r);
+    budget_generate(&b, &cb, e0, n, ctx);
+    oa = cb.nev > e0 ? cb.ev[e0].off : n + 1;
+    e1 = cb.nev;
+    lib_generate(&tw, &cb, n, &r);
+    ob = cb.nev > e1 ? cb.ev[e1].off : n + 1;
+    ++n_twin;
+    if (ob > oa) emit_viol("feed-delays-reseed", "%s: after ONE MORE feed the next entropy request came after %zu bytes instead of %zu", ctx, ob, oa);
+    n_events += cb.nev;
+}
+
 static void budget_random(const args_t *a, long idx)
 {
     static const size_t LIM[] = {0, 1, 31, 32, 33, 64, 100, 1024, 4096, 1048576, 1048577, (size_t)-1, 65536, 3000};
@@ -702,6 +742,14 @@ int main(int argc, char **argv)
             unsigned k, f, l;
             for (k = 0; k < 5; ++k) for (f = 0; f < 9; ++f) for (l = 0; l < 4; ++l, ++idx)
                 if (mine(&a, idx)) budget_near_wrap(&a, idx, k, f, LIMS[l]);
+            { static const int PW[] = {8, 15, 16, 20, 24, 26, 27, 28, 29, 30, 31};
+              int pw, d, pr;
+              for (pw = 0; pw < 11; ++pw) for (d = -2; d <= 2; ++d) for (f = 0; f < 3; ++f) for (l = 0; l < 4; ++l) for (pr = 0; pr < 3; ++pr, ++idx) {
+                  unsigned long full = (unsigned long)(bound_for(LIMS[l]) / 32), pre = pr == 0 ? 0 : pr == 1 ? 1 : full;
+                  if (pr == 2 && full > 64 && !(d == 0 && f == 0)) continue;        /* the 1 MiB prefix only once per power */
+                  if (pr == 1 && full == 1) continue;
+                  if (mine(&a, idx)) budget_placed(&a, idx, (unsigned long)((1L << PW[pw]) + d), f, LIMS[l], pre);
+              } }
         } else if (a.batch == 0) emit_info("near-counter-wrap histories skipped: this build has no RWEATHER_TINYJAMBU_VERIF hook");
     } else if (!strcmp(a.mode, "faults")) {
         int p, s[12], c;
